@@ -542,3 +542,13 @@ def mc(ctx):
 
 
 RULES.append(mc)
+
+
+@rule("V13", doc="the e-nodes the matchers read (enodes_applied) are renamed consistently: one fresh name per non-class slot for all its occurrences, class slots renamed to the invocation's arguments simultaneously (C03.H2 / H6) — a match found on a mis-renamed copy denotes a term that is not represented")
+def v13(ctx):
+    from . import c03
+    c03.h2(ctx)
+    c03.h6(ctx)
+
+
+RULES.append(v13)
